@@ -16,6 +16,38 @@ def region_paths(b, max_paths=4000):
     return out, loops
 
 
+def dominating_conds(paths):
+    """{region start block: conditions that hold whenever that region is entered from outside}: the conditions common to every path
+    that arrives at the loop head from another region (plus what dominated that region), restricted to conditions about values
+    that do not change (no loop-carried or post-call state).  Region 0 (the function entry) has none."""
+    def start(q):
+        return q.blocks[0] if q.blocks else 0
+
+    def stable(c):
+        return not any(s_[0] in ('hav', 'post') for s_ in subterms(c[0]))
+    heads = {start(q) for q in paths}
+    dom = {0: []}
+    for _ in range(4):
+        changed = False
+        for h in heads:
+            if h == 0:
+                continue
+            arrivals = [q for q in paths if q.end == ('stop', h) and start(q) != h and start(q) in dom]
+            if not arrivals:
+                continue
+            common = None
+            for q in arrivals:
+                cs = [(c[0], c[1], c[2]) for c in (dom[start(q)] + list(q.conds)) if stable(c)]
+                common = cs if common is None else [c for c in common if c in cs]
+            common = common or []
+            if dom.get(h) != common:
+                dom[h] = common
+                changed = True
+        if not changed:
+            break
+    return dom
+
+
 def functions_of(ctx, prefix='functions::'):
     return [b for p, b in sorted(ctx.facts.bodies.items()) if p.startswith(prefix) and b.kind != 'Promoted']
 
@@ -750,6 +782,49 @@ def r07_8(ctx, run, rule='R07.8'):
                           '`$` on a scalar root in array mode nests a scalar document as an element, which is not the canonical encoding', loc)
     if not n:
         run.undecided(rule, 'selector writers', 'nested-entry', 'no selector function emits a CONTAINER_TAG entry word for copied bytes (moved?): not decided')
+    # the other side of the same decision: where a scalar document is unwrapped (its payload from byte 8 copied out), the entry word kept for
+    # it is the word at bytes 4..8 of that document, not its header word at bytes 0..4
+    for p, b in sorted(f.bodies.items()):
+        if not p.startswith("jsonpath::selector::Selector::<'a>::") or b.kind == 'Promoted':
+            continue
+        paths, loops = region_paths(b)
+        worst = None
+        for q in paths:
+            scalar_here = any((lambda t_, c_: (t_[0] == 'bin' and t_[1] == 'BitAnd' and any(const_of(x_) == MASK for x_ in (t_[2], t_[3])) and c_[1] == 'eq' and c_[2] == SCALAR) or
+                               (t_[0] == 'bin' and t_[1] == 'Eq' and c_[2] is True and any(const_of(x_) == SCALAR for x_ in (t_[2], t_[3]))
+                                and any(s_[0] == 'bin' and s_[1] == 'BitAnd' and any(const_of(y_) == MASK for y_ in (s_[2], s_[3])) for s_ in subterms(t_))))(c[0], c) for c in q.conds)
+            if not scalar_here:
+                continue
+            unwraps = [e for e in q.calls() if called(e[1], 'Vec::extend_from_slice') and len(e[2]) == 2 and any(
+                agg_variant(deref_all(s_)) and deref_all(s_)[1][1].split('::')[-1] == 'RangeFrom' and const_of(deref_all(s_)[2][0]) == 8 for s_ in subterms(e[2][1]))]
+            if not unwraps:
+                continue
+            cond_terms = {repr(s_) for c in q.conds for s_ in subterms(c[0])}
+            words = []
+            vals = [v_ for v_ in q.store.values() if isinstance(v_, tuple)] + [a_ for e in q.calls() for a_ in e[2]]
+            for v_ in vals:
+                for s_ in subterms(v_):
+                    if s_[0] == 'call' and canon(s_[1]).endswith('from_be_bytes') and s_[2] and repr(s_) not in cond_terms:
+                        offs = sorted({const_of(x_[2]) for x_ in subterms(s_[2][0]) if x_[0] == 'index' and isinstance(const_of(x_[2]), int)})
+                        rng = [deref_all(x_) for x_ in subterms(s_[2][0]) if agg_variant(deref_all(x_)) and deref_all(x_)[1][1].split('::')[-1] in ('Range', 'RangeFrom', 'RangeTo')]
+                        if offs:
+                            words.append(offs[0])
+                        elif rng:
+                            r0 = rng[0]
+                            words.append(0 if r0[1][1].split('::')[-1] == 'RangeTo' else const_of(r0[2][0]))
+            for w in words:
+                v = 'ok' if w == 4 else ('bad' if w == 0 else 'unsure')
+                worst = v if worst is None or {'ok': 0, 'unsure': 1, 'bad': 2}[v] > {'ok': 0, 'unsure': 1, 'bad': 2}[worst] else worst
+        if worst is None:
+            continue
+        loc = f'{b.file}:{b.line}'
+        if worst == 'ok':
+            run.proved(rule, p, 'unwrapped-entry', 'a scalar document is unwrapped with the entry word read at bytes 4..8', loc)
+        elif worst == 'bad':
+            run.violation(rule, p, 'unwrapped-entry', 'where a scalar document is unwrapped (its payload from byte 8 copied out) the word kept as its entry is read from bytes 0..4, the header word, '
+                          'not from bytes 4..8: the element gets entry word 0x20000000 | 0 whatever its kind and length', loc)
+        else:
+            run.undecided(rule, p, 'unwrapped-entry', 'the entry word kept for an unwrapped scalar document is read at an offset this rule does not evaluate: not decided', loc)
 
 
 def r06_13(ctx, run, rule='R06.13'):
@@ -907,3 +982,297 @@ def r06_15(ctx, run, rule='R06.15'):
     else:
         run.proved(rule, fn, 'verbatim-operand', f'{n} path(s) return an operand unchanged, each with both header kinds established equal' if n else
                    'no path returns an operand unchanged: every result is rebuilt by a builder', loc, nontrivial=bool(n))
+
+
+# ------------------------------------------------------------------ R06.17 the scalar layout is read only from scalar documents
+
+def r06_17(ctx, run, rule='R06.17', only=None, floor=None):
+    """A document is taken apart as *scalar* — entry word at byte 4, payload from byte 8 — only where its header kind is known not to be
+    ARRAY or OBJECT (it was tested equal to SCALAR, or both container kinds were excluded).  Read like that, an array yields its first
+    element's entry word and the rest of its entry table as "payload".  In a helper that receives (bytes, header) the kinds left open by
+    its own tests must be excluded at every call site."""
+    from rules.walkers import _pair_family, _header_source
+    f = ctx.facts
+    MASK = cv(f, 'CONTAINER_HEADER_TYPE_MASK')
+    K = {cv(f, 'SCALAR_CONTAINER_TAG'): 'S', cv(f, 'ARRAY_CONTAINER_TAG'): 'A', cv(f, 'OBJECT_CONTAINER_TAG'): 'O'}
+    if MASK is None or None in K:
+        run.undecided(rule, 'constants', 'scalar-layout', 'header constants not found (anchor lost)')
+        return
+    fam = _pair_family(f)
+    paths_of = {}
+
+    def paths(b):
+        if b.path not in paths_of:
+            paths_of[b.path] = region_paths(b)[0]
+        return paths_of[b.path]
+
+    def header_of(b, t):
+        """the slice term (root) whose header word the masked term tests, or ('param', k) for a header parameter"""
+        t = strip_casts(deref_all(t))
+        if t[0] == 'init' and isinstance(t[1], int) and 1 <= t[1] <= b.argc and b.local_ty(t[1]).get('s') == 'u32':
+            return ('kindparam', t[1])
+        if not (t[0] == 'bin' and t[1] == 'BitAnd' and any(const_of(x) == MASK for x in (t[2], t[3]))):
+            return None
+        h = t[3] if const_of(t[2]) == MASK else t[2]
+        src = _header_source(h)
+        if src is not None and const_of(src[1]) == 0:
+            return ('slice', deref_all(src[0]))
+        h0 = deref_all(strip_casts(h))
+        if h0[0] == 'loc' and len(h0) > 2:
+            h0 = deref_all(h0[2])
+        if h0[0] == 'init' and isinstance(h0[1], int) and h0[1] <= b.argc:
+            return ('param', h0[1])
+        if h0[0] in ('init', 'hav'):
+            return ('local', h0[1])
+        return None
+
+    def kinds_on(b, conds, want, _depth=0):
+        """kinds still possible for the header identified by `want` (('slice', term) / ('param', k) / ('local', l))"""
+        poss = set('SAOX')
+        for c in conds:
+            t = c[0]
+            cands = []
+            if header_of(b, t) is not None:
+                hh = header_of(b, t)
+                if c[1] == 'eq' and not isinstance(c[2], bool):
+                    cands.append((hh, {K.get(c[2], 'X')}, True))
+                elif c[1] == 'ne' and isinstance(c[2], tuple):
+                    cands.append((hh, {K.get(v, 'X') for v in c[2]}, False))
+            elif t[0] == 'bin' and t[1] in ('Eq', 'Ne') and isinstance(c[2], bool):
+                for x, y in ((t[2], t[3]), (t[3], t[2])):
+                    hh = header_of(b, x)
+                    kv = const_of(y)
+                    if hh is not None and kv is not None:
+                        cands.append((hh, {K.get(kv, 'X')}, (t[1] == 'Eq') == c[2]))
+            # the two kinds compared with each other: what is known about one holds for the other
+            if t[0] == 'bin' and t[1] in ('Eq', 'Ne') and isinstance(c[2], bool) and (t[1] == 'Eq') == c[2] and _depth < 1:
+                h1, h2 = header_of(b, t[2]), header_of(b, t[3])
+                if h1 is not None and h2 is not None:
+                    for mine, other in ((h1, h2), (h2, h1)):
+                        if mine == want or (mine[0] == 'slice' and want[0] == 'slice' and mine[1][:2] == want[1][:2] and mine[1][0] == 'init'):
+                            poss &= kinds_on(b, conds, other, _depth + 1)
+            for hh, ks, is_eq in cands:
+                same = (hh == want) or (hh[0] == 'slice' and want[0] == 'slice' and hh[1][:2] == want[1][:2] and hh[1][0] == 'init')
+                if not same:
+                    continue
+                if is_eq:
+                    poss &= ks
+                elif 'X' not in ks:
+                    poss -= ks
+        return poss
+
+    n = 0
+    for p, b in sorted(f.bodies.items()):
+        if b.kind == 'Promoted' or not p.startswith('functions::') or (only is not None and not only(p)):
+            continue
+        if not any(called(callee_name(t_), 'functions::read_u32') for _, t_ in b.calls()):
+            continue
+        verdicts = {}
+        dom = dominating_conds(paths(b))
+        # locals computed before a loop stand, inside the loop's region, for the value they had at its entry
+        entry_vals = {}
+        for q0 in paths(b):
+            if (q0.blocks[0] if q0.blocks else 0) == 0:
+                for k_, v_ in q0.store.items():
+                    if isinstance(k_, tuple) and k_[0] == 'L' and isinstance(v_, tuple):
+                        entry_vals.setdefault(k_[1], set()).add(v_)
+
+        def subst(t, depth=0):
+            if not isinstance(t, tuple) or not t or depth > 6:
+                return t
+            if t[0] in ('init', 'hav') and len(t) > 1 and isinstance(t[1], int) and t[1] > b.argc and len(entry_vals.get(t[1], ())) == 1:
+                return next(iter(entry_vals[t[1]]))
+            if t[0] in ('bin', 'cast', 'ref', 'deref', 'loc', 'un'):
+                return tuple(subst(x, depth + 1) if isinstance(x, tuple) and x and isinstance(x[0], str) else x for x in t)
+            return t
+
+        def settle(c):
+            return (subst(c[0]),) + tuple(c[1:])
+        for q in paths(b):
+            evs = list(q.calls())
+            for e in evs:
+                if not (called(e[1], 'functions::read_u32') and len(e[2]) == 2 and const_of(e[2][1]) == 4):
+                    continue
+                V = deref_all(e[2][0])
+                if V[0] != 'init':
+                    continue
+                # the payload from byte 8 of the same value on this path
+                has_payload = any((called(x[1], 'Index::index', 'index::index') and len(x[2]) == 2 and deref_all(x[2][0])[:2] == V[:2]
+                                   and agg_variant(deref_all(x[2][1])) and deref_all(x[2][1])[1][1].split('::')[-1] == 'RangeFrom' and const_of(deref_all(x[2][1])[2][0]) == 8) or
+                                  (canon(x[1]).endswith('slice::get') and len(x[2]) == 2 and deref_all(x[2][0])[:2] == V[:2] and agg_variant(deref_all(x[2][1]))
+                                   and const_of(deref_all(x[2][1])[2][0]) == 8) for x in evs)
+                if not has_payload:
+                    continue
+                conds = list(dom.get(q.blocks[0] if q.blocks else 0, [])) + list(q.conds[:e[6]])
+                if q.blocks and q.blocks[0] != 0:
+                    conds = [settle(c) for c in conds]
+                wants = [('slice', V)]
+                own = fam.get(p)
+                hp = None
+                if own:
+                    for (hk, sk, _o) in own:
+                        if sk == V[1]:
+                            hp = hk
+                            wants.append(('param', hk))
+                if hp is None:
+                    # a parameter that carries the already masked kind (`value_type: u32`), in a function with one byte-string parameter
+                    slices_ = [k_ for k_ in range(1, b.argc + 1) if '[u8]' in str(b.local_ty(k_).get('s')) and b.local_ty(k_).get('k') == 'ref']
+                    kps = set()
+                    for c in conds:
+                        t_ = c[0]
+                        cand_ = [t_] if c[1] in ('eq', 'ne') and not isinstance(c[2], bool) else ([x_ for x_ in t_[2:4]] if t_[0] == 'bin' and t_[1] in ('Eq', 'Ne') else [])
+                        for x_ in cand_:
+                            x0 = deref_all(strip_casts(x_))
+                            if x0[0] == 'init' and isinstance(x0[1], int) and 1 <= x0[1] <= b.argc and b.local_ty(x0[1]).get('s') == 'u32':
+                                kps.add(x0[1])
+                    if len(slices_) == 1 and len(kps) == 1:
+                        hp = next(iter(kps))
+                        wants.append(('kindparam', hp))
+                # a header word read before the loop / kept in a local: any local header test on the path counts for this value when the
+                # function has a single document of that name; be conservative: only explicit slice / param matches, locals -> unsure
+                poss = set('SAOX')
+                for w in wants:
+                    poss &= kinds_on(b, conds, w)
+                local_tests = any(header_of(b, c[0]) is not None and header_of(b, c[0])[0] == 'local' for c in conds) or \
+                    any(header_of(b, x) is not None and header_of(b, x)[0] == 'local' for c in conds if c[0][0] == 'bin' for x in c[0][2:4])
+                key = (show(V)[:30], e[5].get('line'))
+                left = poss & {'A', 'O'}
+                if not left:
+                    v = ('ok', None)
+                elif local_tests:
+                    v = ('unsure', None)
+                elif b.vis != 'pub' and '::{closure' not in p:
+                    # a private function: the kinds it leaves open must be excluded where it is called (through its header parameter, or by a
+                    # test of the same bytes at the call site)
+                    v = ('callers', (hp, left, V[1]))
+                elif poss >= set('SAO'):
+                    v = ('unsure', None)      # nothing at all is tested here: the kind is established by something this rule does not read
+                else:
+                    v = ('bad', left)
+                prev = verdicts.get(key)
+                rank = {'ok': 0, 'unsure': 1, 'callers': 2, 'bad': 3}
+                if prev is None or rank[v[0]] > rank[prev[0]]:
+                    verdicts[key] = v
+        for (vname, line), (vd, extra) in sorted(verdicts.items(), key=str):
+            n += 1
+            loc = f'{b.file}:{line}'
+            if vd == 'ok':
+                run.proved(rule, p, f'scalar-layout[{vname}]', 'entry word at 4 / payload from 8 only where the header kind excludes ARRAY and OBJECT', loc)
+            elif vd == 'unsure':
+                run.undecided(rule, p, f'scalar-layout[{vname}]', 'the header kind was tested through a local this rule does not tie to these bytes: not decided', loc)
+            elif vd == 'bad':
+                run.violation(rule, p, f'scalar-layout[{vname}]', f'`{vname}` is read as a scalar document (entry word at byte 4, payload from byte 8) on a path where its header kind may still be '
+                              f'{"/".join(sorted({"A": "ARRAY", "O": "OBJECT"}[x] for x in extra))}: a container read that way yields its first entry word and its entry table as payload', loc)
+            else:
+                hp, left, vparam = extra
+                # every call site must exclude the kinds the helper leaves open
+                open_at = []
+                sites = 0
+                for caller, tgts in ctx.cg.edges.items():
+                    if p not in tgts or caller not in f.bodies:
+                        continue
+                    cb = f.bodies[caller]
+                    for q in paths(cb):
+                        for e in q.calls():
+                            c_ = e[5]['callee']
+                            tg = c_.get('resolved') if c_.get('resolved_local') else (c_.get('written') if c_.get('local') else None)
+                            if tg != p or (hp or vparam) - 1 >= len(e[2]) or vparam - 1 >= len(e[2]):
+                                continue
+                            sites += 1
+                            ws = []
+                            va = deref_all(e[2][vparam - 1])
+                            if va[0] == 'init':
+                                ws.append(('slice', va))
+                                for (hk_, sk_, _o) in (fam.get(caller) or ()):
+                                    if sk_ == va[1]:
+                                        ws.append(('param', hk_))
+                            if hp is not None:
+                                ha = e[2][hp - 1]
+                                hk0 = header_of(cb, ha)
+                                if hk0 is not None and hk0[0] != 'kindparam':
+                                    ws.append(hk0)
+                                src = _header_source(ha)
+                                if src is not None and const_of(src[1]) == 0:
+                                    ws.append(('slice', deref_all(src[0])))
+                                else:
+                                    h0 = deref_all(strip_casts(ha))
+                                    if h0[0] == 'init' and isinstance(h0[1], int) and h0[1] <= cb.argc:
+                                        ws.append(('param', h0[1]))
+                                    elif h0[0] in ('init', 'hav'):
+                                        ws.append(('local', h0[1]))
+                            if not ws:
+                                open_at.append((caller, None))
+                                continue
+                            cconds = list(dominating_conds(paths(cb)).get(q.blocks[0] if q.blocks else 0, [])) + list(q.conds[:e[6]])
+                            pc = set('SAOX')
+                            for w in ws:
+                                pc &= kinds_on(cb, cconds, w)
+                            if (pc >= set('SAO') and hp is None) or (any(w[0] == 'local' for w in ws) and (pc & left)):
+                                # nothing read about the kind at this call site, and the helper is not handed the header to decide itself
+                                open_at.append((caller, None))
+                                continue
+                            if pc & left:
+                                open_at.append((caller, pc & left))
+                if not sites:
+                    run.undecided(rule, p, f'scalar-layout[{vname}]', 'a helper reads its argument as a scalar document; no call site was found to check which kinds reach it', loc)
+                elif any(k_ is None for _, k_ in open_at):
+                    run.undecided(rule, p, f'scalar-layout[{vname}]', 'a helper reads its argument as a scalar document; at some call site the header argument could not be tied to a kind test: not decided', loc)
+                elif open_at:
+                    cl, ks = open_at[0]
+                    run.violation(rule, p, f'scalar-layout[{vname}]', f'this helper reads `{vname}` as a scalar document unless its header is '
+                                  f'{"/".join(sorted({"A": "ARRAY", "O": "OBJECT"}[x] for x in (set("AO") - left)) or "…")}, and {cl.split("::")[-1]} calls it on a path where the kind may be '
+                                  f'{"/".join(sorted({"A": "ARRAY", "O": "OBJECT"}[x] for x in ks))}: that container is taken apart as if it were a scalar', loc)
+                else:
+                    run.proved(rule, p, f'scalar-layout[{vname}]', f'helper: the kinds it leaves open are excluded at all {sites} call site path(s)', loc)
+    if floor is not None:
+        run.floor(rule, 'scalar-layout reads', n, floor)
+
+
+# ------------------------------------------------------------------ R06.18 a recursive key-path walker hands on the rest of the path
+
+def r06_18(ctx, run, rule='R06.18'):
+    """Functions that walk a key path recursively over a slice (`&[&KeyPath]`) take one step per level: wherever such a function calls
+    itself or a sibling of its recursion cycle after having split the first step off its path (`split_first`, `[1..]`), the callee
+    receives the *rest*; handing on the whole path makes the nested level look for the parent's own step again."""
+    f = ctx.facts
+    fam = {}
+    for p, b in f.bodies.items():
+        if b.kind == 'Promoted' or '::{closure' in p or not p.startswith('functions::'):
+            continue
+        ks = [k for k in range(1, b.argc + 1) if b.local_ty(k).get('k') == 'ref' and 'KeyPath' in str(b.local_ty(k).get('s')) and str(b.local_ty(k).get('s', '')).lstrip('&').lstrip("'a ").lstrip('mut ').startswith('[')]
+        if len(ks) == 1:
+            fam[p] = ks[0]
+    n = 0
+    seen_ = set()
+    for p, k in sorted(fam.items()):
+        b = f.bodies[p]
+        reach = ctx.cg.reachable([p])
+        qs_ = region_paths(b)[0]
+        has_split = any(canon(e[1]).endswith(('split_first', 'split_at')) and e[2] and deref_all(e[2][0])[:2] == ('init', k) for q in qs_ for e in q.calls())
+        for q in qs_:
+            splits = [1] if has_split else []
+            for e in q.calls():
+                if e[1] not in fam or p not in ctx.cg.reachable([e[1]]) or fam[e[1]] - 1 >= len(e[2]):
+                    continue          # not a call inside the recursion cycle
+                a = deref_all(e[2][fam[e[1]] - 1])
+                # only the recursive step proper: made after this level consumed its own step
+                if not splits:
+                    continue
+                t = e[5]
+                loc = f"{t.get('file')}:{t.get('line')}"
+                if (p, e[1], loc) in seen_:
+                    continue
+                seen_.add((p, e[1], loc))
+                n += 1
+                whole = a[:2] == ('init', k)
+                derived = any(is_call(s_, 'split_first', 'split_at') or (is_call(s_, 'Index::index', 'index::index') and len(s_[2]) == 2) for s_ in subterms(a))
+                callee = canon(e[1]).split('::')[-1]
+                if whole:
+                    run.violation(rule, p, f'path-tail[{callee}]', f'after splitting the first step off its key path this function calls {callee}() with the whole path again, not with the rest: '
+                                  'the nested level looks for the same step a second time', loc)
+                elif derived:
+                    run.proved(rule, p, f'path-tail[{callee}]', 'the recursive call receives the rest of the path', loc)
+                else:
+                    run.undecided(rule, p, f'path-tail[{callee}]', f'the path handed to the recursive call ({show(a)[:50]}) is neither this function\'s whole path nor visibly its rest: not decided', loc)
+    if not n:
+        run.proved(rule, '<crate>', 'path-tail', 'no key-path walker recurses over a path slice (the walkers share one queue that each level pops from)', nontrivial=False)
